@@ -298,7 +298,23 @@ impl Prop for C14 {
 			}
 			Case { ty, input: Input::from_bytes(b), variant: None }
 		});
-		prop_oneof![4 => s1, 2 => s2, 2 => s3, 2 => s4].boxed()
+		let illformed: Vec<Vec<u8>> = vec![
+			vec![0xC1, 0x81], vec![0xE0, 0x83, 0xA9], vec![0xF0, 0x82, 0x82, 0xAC], vec![0xF0, 0x8F, 0xBF, 0xBF], vec![0xED, 0xA0, 0x80], vec![0xF4, 0x90, 0x80, 0x80],
+			vec![0xC3], vec![0xE8, 0xAA], vec![0xF0, 0x90, 0x80], vec![0x80], vec![0xFF], vec![0xC3, 0x28],
+		];
+		let s5 = (ty(), vec(any::<u16>(), 0..40), select(illformed), any::<u16>()).prop_map(|(ty, ch, bad, at)| {
+			let base = derive(ty, &ch);
+			let mut b = base.bytes().to_vec();
+			if let Ok(s) = std::str::from_utf8(&b) {
+				let bounds: Vec<usize> = s.char_indices().map(|(i, _)| i).chain(std::iter::once(s.len())).collect();
+				let k = bounds[((at as usize) * bounds.len()) >> 16];
+				for (i, x) in bad.iter().enumerate() {
+					b.insert(k + i, *x)
+				}
+			}
+			Case { ty, input: Input::from_bytes(b), variant: None }
+		});
+		prop_oneof![4 => s1, 2 => s2, 2 => s3, 1 => s4, 1 => s5].boxed()
 	}
 
 	fn check(case: &Case, cx: &mut Ctx) -> Result<(), Failure> {
